@@ -88,9 +88,19 @@ def run_scenarios(ck, sc, site_of=None):
                 and last_op not in ("append_point", "point", "witness")):
             rec["sweep"] = {"max": nsweep}
         lines.append(json.dumps(rec))
-    out = vlib.harness("prog_run", [], stdin="\n".join(lines) + "\n", timeout=6000,
-                       env={"VERIF_SEED": str(vlib.seed())})
-    allobs = vlib.read_ndjson_text(out)
+    # four harness processes side by side (each prove is itself multi-threaded)
+    import concurrent.futures
+    vlib.build_harness("std", "prog_run")
+    shards = [lines[i::4] for i in range(4)]
+
+    def run_shard(part):
+        if not part:
+            return ""
+        return vlib.harness("prog_run", [], stdin="\n".join(part) + "\n", timeout=6000,
+                            env={"VERIF_SEED": str(vlib.seed())})
+    with concurrent.futures.ThreadPoolExecutor(max_workers=4) as ex:
+        outs = list(ex.map(run_shard, shards))
+    allobs = vlib.read_ndjson_text("\n".join(outs))
     obs = {e["id"]: e for e in allobs if "variant" not in e}
     by_id = {s["id"]: s for s in sc}
     nvar = 0
